@@ -91,6 +91,9 @@ def run_unit(u, desc, tier, seed):
         u.exhaustive = exh
         u.decisions = ctx.decisions
         want_accept = (group == 'accept')
+        lemma = []
+        if group == 'accept':
+            lemma = accept_certificates(u, f, ctx, R, E, U)
         for li, leaf in enumerate(leaves):
             u.paths += 1
             tag = '/p' + ''.join('T' if d else 'F' for d in leaf['trace'])
@@ -102,7 +105,7 @@ def run_unit(u, desc, tier, seed):
                         detail='%s on this path' % ('accepted' if want_accept else 'rejected'), sample=(li == 0))
             else:
                 # the wrong outcome must be infeasible
-                u.prove('C20/_check_rotation_matrix/%s' % desc['name'], pre_l, z3.BoolVal(False), replay=mk_replay_rot(f, group, desc.get('entry')),
+                u.prove('C20/_check_rotation_matrix/%s' % desc['name'], pre_l + lemma, z3.BoolVal(False), replay=mk_replay_rot(f, group, desc.get('entry')),
                         detail='%s: path %s on which the check %s must be infeasible' % (desc['name'], tag, 'rejects' if want_accept else 'accepts'),
                         timeout=qt, cvc5_timeout=qt, sample=True)
         return
@@ -112,6 +115,76 @@ def run_unit(u, desc, tier, seed):
         return run_ubi(u, checks, tools, tier)
     if group == 'guards':
         return run_guards(u, desc['module'], tier)
+
+
+def accept_certificates(u, f, ctx, R, E, U):
+    """the 13-variable inequalities 'U^T.U within tolerance of I' and '|det U - 1| within tolerance' for U = R(q) + E are `unknown`
+    for both solvers; they are decided through certificates: (i) identities on the real expressions that express U^T.U - I and
+    det U - 1 as polynomials B(R, E) in the entries of R and E; (ii) |R_ki| <= 1 from the column-norm identity; (iii) abstract
+    bounds of B over the box r in [-1,1], e in [-1e-7,1e-7] (fresh variables).  Returns the proved bounds as formulas."""
+    zc = ctx.zc
+    pre = ctx.base()
+    I3 = C.eye3()
+    D = np.dot(U.T, U) - I3
+    detU = SYMNP.linalg.det(U)
+    r = [[z3.Real('ar%d%d' % (k, i)) for i in range(3)] for k in range(3)]
+    e = [[z3.Real('ae%d%d' % (k, i)) for i in range(3)] for k in range(3)]
+    eps = z3.RealVal('1/10000000')
+    box = []
+    for k in range(3):
+        for i in range(3):
+            box += [r[k][i] <= 1, r[k][i] >= -1, e[k][i] <= eps, e[k][i] >= -eps]
+
+    def Bform(Rm, Em, i, j):
+        return sum(Rm[k][i] * Em[k][j] + Em[k][i] * Rm[k][j] + Em[k][i] * Em[k][j] for k in range(3))
+
+    def det3(M):
+        return (M[0][0] * (M[1][1] * M[2][2] - M[1][2] * M[2][1]) - M[0][1] * (M[1][0] * M[2][2] - M[1][2] * M[2][0])
+                + M[0][2] * (M[1][0] * M[2][1] - M[1][1] * M[2][0]))
+
+    def detform(Rm, Em):
+        # det(R+E) - det(R) with cof(R) = R:  sum_kj E_kj R_kj + second order + det E
+        cols = lambda M, j: [M[k][j] for k in range(3)]
+        tot = sum(Em[k][j] * Rm[k][j] for k in range(3) for j in range(3))
+        for l in range(3):
+            M = [[None] * 3 for _ in range(3)]
+            for j in range(3):
+                src = Rm if j == l else Em
+                for k in range(3):
+                    M[k][j] = src[k][j]
+            tot = tot + det3(M)
+        return tot + det3(Em)
+    ident = []
+    Rl = [[R[k, i] for i in range(3)] for k in range(3)]
+    El = [[E[k, i] for i in range(3)] for k in range(3)]
+    for i in range(3):
+        for j in range(i, 3):
+            ident.append(lift(D[i, j]) - Bform(Rl, El, i, j))
+    ident.append(detU - 1 - detform(Rl, El))
+    for k in range(3):
+        for i in range(3):
+            ident.append(1 - R[k, i] ** 2 - R[(k + 1) % 3, i] ** 2 - R[(k + 2) % 3, i] ** 2)
+    u.prove('C20/_check_rotation_matrix/accept/certificate-identities', pre, C.resid_goal(zc, ident), replay=None,
+            detail='U^T.U - I and det U - 1 as polynomials in the entries of R and E; unit columns of R')
+    xz, yz, wz = z3.Reals('cx cy cw')
+    u.prove('C20/_check_rotation_matrix/accept/abstract-|R_ki|<=1', [1 - xz * xz == yz * yz + wz * wz], z3.And(xz <= 1, xz >= -1), replay=None, detail='unit column => entries in [-1,1]')
+    beta = z3.RealVal('61/100000000')
+    okb = True
+    for (i, j) in ((0, 0), (0, 1)):
+        st = u.prove('C20/_check_rotation_matrix/accept/abstract-bound-UtU[%d,%d]' % (i, j), box, z3.And(Bform(r, e, i, j) <= beta, Bform(r, e, i, j) >= -beta), replay=None,
+                     detail='|B_ij(r,e)| <= 6.1e-7 on the box (same polynomial shape for every diagonal resp. off-diagonal entry)', timeout=60)
+        okb = okb and st == 'discharged'
+    gam = z3.RealVal('91/100000000')
+    std = u.prove('C20/_check_rotation_matrix/accept/abstract-bound-det', box, z3.And(detform(r, e) <= gam, detform(r, e) >= -gam), replay=None,
+                  detail='|det(R+E) - det R| <= 9.1e-7 on the box', timeout=90, cvc5_timeout=90)
+    lem = []
+    if okb:
+        for i in range(3):
+            for j in range(3):
+                lem.append(z3.And(zc.cmp0(lift(D[i, j]) - lift(Fraction(61, 10 ** 8)), '<='), zc.cmp0(lift(D[i, j]) + lift(Fraction(61, 10 ** 8)), '>=')))
+    if std == 'discharged':
+        lem.append(z3.And(zc.cmp0(detU - 1 - lift(Fraction(91, 10 ** 8)), '<='), zc.cmp0(detU - 1 + lift(Fraction(91, 10 ** 8)), '>=')))
+    return lem
 
 
 def run_euler(u, checks, tier):
